@@ -92,11 +92,21 @@ def run_proofs(pid, cfg, log):
            "axioms_seen": [], "problems": []}
     with Lock("lean"):
         sh([sys.executable, os.path.join(ROOT, "tools", "genreg.py")])
-        rc, out = sh([sys.executable, os.path.join(ROOT, "tools", "extract.py")] + cfg.get("generated", []))
+        # every table is regenerated (the driver links all machines); only a failure of one of THIS property's
+        # tables breaks this property (another property's extractor failing is that property's alarm)
+        rc, out = sh([sys.executable, os.path.join(ROOT, "tools", "extract.py")])
         log("extract: " + out.strip())
-        res["translator"] = out.strip()
-        if rc != 0:
-            res["problems"].append("translator failed: " + out.strip())
+        own = set(cfg.get("generated", []))
+        try:
+            ej = json.loads(out.strip().splitlines()[-1])
+            own_failed = {k: v for k, v in ej.get("failed", {}).items() if k in own}
+            res["translator"] = json.dumps({"extracted": [n for n in ej.get("extracted", []) if n in own],
+                                            "failed": own_failed})
+        except Exception:
+            own_failed = {"extract.py": out.strip()[-400:]} if rc != 0 else {}
+            res["translator"] = out.strip()
+        if own_failed:
+            res["problems"].append("translator failed: " + json.dumps(own_failed))
         targets = ["SwimVerif.Props." + pid, "svdriver"]
         rc, out = sh(["lake", "build"] + targets, cwd=LEAN, timeout=3000)
         if rc != 0:
